@@ -117,6 +117,7 @@ def run(ctx):
         hist.append((label, cfg, ops, sizes))
     for label, cfg, ops, sizes in hist:
         rp = (ctx.rng.randrange(1, max(2, len(ops))),)
+        ops, rp = sysprops.accepted_only(ops, rp)
         sysprops.run_oracle(ctx, 'C10', iter([(label + '+reopen', cfg, ops, sizes)]), oracle, need_reopen=False, max_shrink=1,
                             build_kwargs={'reopen_points': rp})
     flush_fid_cases(ctx)
